@@ -335,6 +335,50 @@ def run(ctx):
                 m.params = m._create_params_from_fit_model()
         sigs.add(("storage", fam))
 
+    # ---------------- (D2) a disqualification the FIT ITSELF adds (poor fit) survives storage and keeps the gate shut
+    rng_pf = np.random.default_rng(404 + ctx["seed"])
+    poor = dd.copy()
+    poor["observed"] = np.abs(rng_pf.normal(10, 60, len(poor))) ** 2 + 0.1          # heavy-tailed, unrelated to the weather
+    poor_reads = pd.Series(np.abs(rng_pf.normal(10, 60, 13)) ** 2 + 0.1, index=reads, name="observed")
+    poor_cases = [("daily", DailyModel, lambda: DailyBaselineData(poor, is_electricity_data=True), daily_r),
+                  ("billing", BillingModel, lambda: BillingBaselineData.from_series(poor_reads, htemp, is_electricity_data=True), bill_r)]
+    if thorough:
+        hp = synth_hourly(days=365)
+        hp["observed"] = np.abs(rng_pf.normal(1, 6, len(hp))) ** 2 + 0.01
+        poor_cases.append(("hourly", HourlyModel, lambda: HourlyBaselineData(hp, is_electricity_data=True), hour_r))
+    for fam, cls, mkdata, rdata in poor_cases:
+        res["evaluations"] += 1
+        try:
+            data = mkdata()
+            data_dq_before = [d.qualified_name for d in data.disqualification]
+            m = cls().fit(data, ignore_disqualification=True)
+        except Exception as e:  # noqa
+            res["hist"]["poor_fit_unavailable:" + fam + ":" + exc_name(e)] = 1
+            continue
+        own = [d.qualified_name for d in m.disqualification if d.qualified_name not in data_dq_before]
+        res["hist"]["poor_fit:" + fam] = own
+        if not own:
+            continue                              # the fit was not judged poor: nothing to carry (the verdict itself is C16's)
+        desc_pf = dict(family=fam, input="heavy-tailed usage unrelated to the weather (harness/props/c04.py D2)", fit_added=own)
+        try:
+            m.predict(rdata)
+            res["oracle_failures"].append(dict(clause="poor_fit_model_predicts_without_override", **desc_pf))
+        except DisqualifiedModelError:
+            pass
+        try:
+            m2 = cls.from_json(m.to_json())
+            names = [getattr(d, "qualified_name", str(d)) for d in m2.disqualification]
+            if not set(own) <= set(names):
+                res["oracle_failures"].append(dict(clause="poor_fit_disqualification_lost_in_storage", restored=names, **desc_pf))
+            try:
+                m2.predict(rdata)
+                res["oracle_failures"].append(dict(clause="stored_poor_fit_model_predicts_without_override", **desc_pf))
+            except DisqualifiedModelError:
+                pass
+        except Exception as e:  # noqa
+            res["oracle_failures"].append(dict(clause="poor_fit_disqualification_lost_in_storage", detail=f"{exc_name(e)}: {str(e)[:100]}", **desc_pf))
+        sigs.add(("poor_fit_storage", fam))
+
     if ctx.get("model_ok", True):
         outs = core.run_driver(lines)
         for out, exp, d in zip(outs, expect, descs):
